@@ -119,6 +119,8 @@ func genC07Maps(level int) []*MapScen {
 		add(&MapScen{Rel: RelSD, NKeys: 2, Init: []int{0, 1}, Table: TGrowArmed, Threads: [][]MIn{{opRange}, {on(opStore, 0)}}, ExpectGrow: true})
 		add(&MapScen{Rel: RelLate, NKeys: 2, Init: []int{0, 1}, Table: TGrowArmed, Threads: [][]MIn{{opRange}, {on(opStore, 0)}}, ExpectGrow: true})
 		add(&MapScen{Rel: RelDD, NKeys: 2, Init: []int{1, 1}, Table: TShrinkArmed, Threads: [][]MIn{{opRange}, {on(opDelete, 0)}}, ExpectShrink: true})
+		// keys (and bystanders) that change their bucket when the table is replaced
+		add(&MapScen{Rel: RelSplit, NKeys: 2, Init: []int{0, 1}, Table: TGrowArmed, Threads: [][]MIn{{opRange}, {on(opStore, 0)}}, ExpectGrow: true})
 		if level >= 1 {
 			add(&MapScen{Rel: RelLate, NKeys: 2, Init: []int{1, 1}, Table: TShrinkArmed, Threads: [][]MIn{{opRange}, {on(opDelete, 0)}}, ExpectShrink: true})
 			// two writers
